@@ -119,13 +119,8 @@ class Asset(DictCBORSerializable):
     def __eq__(self, other):
         if not isinstance(other, Asset):
             return False
-        else:
-            if len(self) != len(other):
-                return False
-            for n in self:
-                if n not in other or self[n] != other[n]:
-                    return False
-            return True
+        # Component-wise, like <=: an asset name missing on either side counts as 0.
+        return all(self.get(n, 0) == other.get(n, 0) for n in set(self) | set(other))
 
     def __le__(self, other: Asset) -> bool:
         # Component-wise: an asset name missing on either side counts as 0.
@@ -186,13 +181,11 @@ class MultiAsset(DictCBORSerializable):
     def __eq__(self, other):
         if not isinstance(other, MultiAsset):
             return False
-        else:
-            if len(self) != len(other):
-                return False
-            for p in self:
-                if p not in other or self[p] != other[p]:
-                    return False
-            return True
+        # Component-wise, like <=: a policy missing on either side counts as an empty Asset.
+        return all(
+            self.get(p, Asset()) == other.get(p, Asset())
+            for p in set(self) | set(other)
+        )
 
     def __le__(self, other: MultiAsset):
         # Component-wise: a policy missing on either side counts as an empty Asset.
